@@ -78,6 +78,21 @@ package dialer
 //@   ensures result1 <==> len(ln.latencies) > 0
 //@   ensures len(ln.latencies) > 0 ==> result0 == ln.SumNLatencies / len(ln.latencies)
 //@   ensures len(ln.latencies) == 0 ==> result0 == 0
+// C15/C16 (a reload hands the samples over): a snapshot is a copy of the whole window - every sample, the ring
+// position and the running sum - and restoring it reproduces exactly that window (so "last" and "average" rank
+// the node after the reload as before it)
+//@ func (*LatenciesN).Snapshot
+//@   anchorsonly
+//@   nonilcheck
+//@   ensures result.Head == ln.head && result.SumNLatencies == ln.SumNLatencies && len(result.Latencies) == len(ln.latencies)
+//@   ensures forall k int {result.Latencies[k]} :: 0 <= k && k < len(ln.latencies) ==> result.Latencies[k] == ln.latencies[k]
+//@   ensures len(ln.latencies) > 0 ==> fresh(result.Latencies)
+//@ func (*LatenciesN).Restore
+//@   anchorsonly
+//@   nonilcheck
+//@   modifies ln.SumNLatencies, ln.head, ln.latencies, elems(ln.latencies)
+//@   ensures ln.head == snapshot.Head && ln.SumNLatencies == snapshot.SumNLatencies && len(ln.latencies) == len(snapshot.Latencies)
+//@   ensures old(ln.latencies.$base) != snapshot.Latencies.$base ==> (forall k int {ln.latencies[k]} :: 0 <= k && k < len(snapshot.Latencies) ==> ln.latencies[k] == snapshot.Latencies[k])
 //@ func (*LatenciesN).LastLatency
 //@   anchorsonly
 //@   nonilcheck
@@ -298,6 +313,19 @@ package dialer
 //@   trusted
 //@   ensures result != nil
 
+// C14 (a node keeps its name through link normalisation): when a whole-base64 ss:// link is decoded to rewrite its
+// shadow-tls plugin options, the "#name" fragment that followed the payload is put back after the decoded payload.
+//@ func normalizeShadowTLSPluginOptionsInBase64Link
+//@   anchorsonly
+//@   nonilcheck
+//@   dyncalls noeffect
+//@   modifies *
+//@   ghostfn dec() string
+//@   let frag() = nth(strings.Cut(payloadAndFragment, "#"), 1)
+//@   at call decodeSSBase64Payload#1 assert a0 == nth(strings.Cut(payloadAndFragment, "#"), 0)
+//@   at call decodeSSBase64Payload#1 assume-after nth(result, 0) == dec()
+//@   at call normalizeShadowTLSPluginOptionsInURL#1 assert (frag() == "" ==> a0 == cat("ss://", dec())) && (frag() != "" ==> a0 == cat(cat("ss://", dec()), cat("#", frag())))
+
 // C14 (annotation of a filter line): every entry must be a well-formed add_latency (anything else is an
 // error, never silently skipped); the offset is the first non-zero latency of the list.
 //@ func NewAnnotation
@@ -341,6 +369,10 @@ package dialer
 //@   at call MustGetAlive#1 assert tfc(d, i()) == 0
 //@   ensures calls("markAvailableTraffic") <= 1
 //@   ensures calls("markAvailableTraffic") == 0 ==> tfc(d, i()) == 0
+// ... and every revival is told to the groups the node belongs to (the update that markAvailableTraffic returns is
+// what informDialerGroupUpdate distributes)
+//@   at call informDialerGroupUpdate#1 assert a0 == d && calls("markAvailableTraffic") == 1
+//@   ensures calls("informDialerGroupUpdate") == calls("markAvailableTraffic")
 
 //@ func (*Dialer).ReportUnavailable
 //@   anchorsonly
@@ -410,6 +442,8 @@ package dialer
 //@   at call markAvailable#1 assert a1 == opts.networkType && a2 == bestLatency && ok && err == nil
 //@   at call markUnavailable#1 assert a1 == opts.networkType && err != nil && !stderrors.Is(err, context.Canceled)
 //@   ensures calls("markAvailable") + calls("markUnavailable") <= 1
+// every state change a probe produces is distributed to the node's groups
+//@   ensures calls("informDialerGroupUpdate") == calls("markAvailable") + calls("markUnavailable")
 
 // escalation after persistent proxy failures goes through the forced failure entry point for each of the
 // six listed network types. What the list holds is pinned where the walk starts (across the calls the callee
